@@ -16,6 +16,7 @@ import (
 	"strconv"
 	"strings"
 	"verifharness/dbfix"
+	"verifharness/pgmem"
 
 	"github.com/ethereum/go-ethereum/common"
 
@@ -38,7 +39,7 @@ func main() {
 		Rule: "case = one synced state (queue of 0..14 transactions with gas limits below/at/above the encrypted gas limit incl. cumulative sums hitting the limit exactly and a first transaction alone above it; a second keyper set's queue; pointer row absent / before / inside / at / beyond the queue end with age 0, max, max+1, unknown) followed by a history of 12 operations interleaving slot triggers, keys messages received through the real DecryptionKeysHandler, keys messages sent through the real MessagingMiddleware, restarts (ages reset) and age increments, on two keypers with identical rows. " +
 			"distinct = (queue shape, pointer state, operation sequence); non-trivial = queue non-empty and at least one trigger",
 		Assumptions: []string{
-			"queue indices are contiguous from 0 and gas limits are >= MinGasPerTransaction, as the configuration assumes; senders are 20-byte addresses and identity prefixes are non-zero, so the slot identity sorts first",
+			"queue indices are contiguous from 0 or (a quarter of the cases) from a later index, the queue length then being the index after the last known transaction; gas limits are >= MinGasPerTransaction except for queued transactions of 20000 gas in some cases; senders are 20-byte addresses and identity prefixes are non-zero, so the slot identity sorts first",
 			"relative to pgmem (in-memory PostgreSQL substitute; repository DB tests pass against it)",
 		},
 		Prepare: func(env *vlib.Env) (int, error) { nCases = env.Scale(8000, 120000); return nCases, nil },
@@ -102,8 +103,23 @@ func runCase(env *vlib.Env, idx int, rep *vlib.Reporter) {
 	}
 	// queue
 	nq := []int{0, 1, 2, 3, 5, 8, 14}[r.Intn(7)]
-	var queue []refimpl.QueuedTx
+	// a keyper that started syncing the sequencer late holds the queue from some index on; the
+	// "queue length" a stale pointer falls back to is the index after the last known transaction
+	off := 0
+	if nq > 0 && r.Intn(4) == 0 {
+		off = 1 + r.Intn(6)
+		rep.Obs("queues_known_from_a_later_index_on", 1)
+	}
 	gasChoices := []uint64{minGas, 100_000, 300_000, 400_000, 500_000, gasLimit - minGas, gasLimit, gasLimit + 1, 2 * gasLimit}
+	if r.Intn(40) == 0 {
+		// as many cheap transactions as the gas limit can take at all: 48 transactions of 20000 gas
+		// (the sequencer does not refuse gas limits below MinGasPerTransaction) fit into 1M gas
+		nq, off = 48, 0
+		gasChoices = []uint64{20_000}
+		rep.Obs("queues_of_48_cheap_transactions", 1)
+	}
+	qlen := off + nq
+	var queue []refimpl.QueuedTx
 	for i := 0; i < nq; i++ {
 		p := r.Bytes(32)
 		p[0] |= 1
@@ -113,9 +129,9 @@ func runCase(env *vlib.Env, idx int, rep *vlib.Reporter) {
 			p, sender = queue[i-1].Prefix, queue[i-1].Sender
 			rep.Obs("queued_transactions_repeating_an_identity", 1)
 		}
-		queue = append(queue, refimpl.QueuedTx{Index: int64(i), Prefix: p, Sender: sender, GasLimit: gasChoices[r.Intn(len(gasChoices))]})
+		queue = append(queue, refimpl.QueuedTx{Index: int64(off + i), Prefix: p, Sender: sender, GasLimit: gasChoices[r.Intn(len(gasChoices))]})
 	}
-	shape := fmt.Sprintf("q%d[", nq)
+	shape := fmt.Sprintf("q%d+%d[", off, nq)
 	for _, tx := range queue {
 		shape += fmt.Sprintf("%d,", tx.GasLimit/1000)
 	}
@@ -138,7 +154,7 @@ func runCase(env *vlib.Env, idx int, rep *vlib.Reporter) {
 	case 0: // no row
 	default:
 		ptr.Exists = true
-		ptr.Value = []int64{0, int64(nq / 2), int64(nq) - 1, int64(nq), int64(nq) + 3}[r.Intn(5)]
+		ptr.Value = []int64{0, int64(off + nq/2), int64(qlen) - 1, int64(qlen), int64(qlen) + 3}[r.Intn(5)]
 		if ptr.Value < 0 {
 			ptr.Value = 0
 		}
@@ -186,7 +202,7 @@ func runCase(env *vlib.Env, idx int, rep *vlib.Reporter) {
 	ptrs := []refimpl.Pointer{ptr, ptr}
 	keyperSet := w.Keypers.KeyperSet(w.CfgIndex, w.Activation, int32(w.T))
 	// everything below refers to the keyper set in charge: cw / curQueue / curNq / ptrs / keyperSet
-	cw, curQueue, curNq := w, queue, int64(nq)
+	cw, curQueue, curNq := w, queue, int64(qlen)
 	slot := uint64([]uint64{0, 1, 1 << 32, 1<<63 - 20}[r.Intn(4)])
 	triggers := 0
 	var lastIDs [2][][]byte
@@ -231,6 +247,48 @@ func runCase(env *vlib.Env, idx int, rep *vlib.Reporter) {
 		}
 		op := r.Intn(10)
 		switch {
+		case op == 9 && slot < 1<<62:
+			// a slot whose first attempt meets a database fault, attempted again (every slot is
+			// attempted when the previous block arrives and when the slot ticker fires): the second
+			// attempt of a slot never ages the pointer again and never produces a second trigger
+			slot++
+			j := r.Intn(14)
+			ops += fmt.Sprintf("F%d", j)
+			for i, n := range nodes {
+				db := n.DBNode.DB
+				rt0, _ := db.RoundTrips(n.Incarnation)
+				db.SetFaultPlan(n.Incarnation, &pgmem.FaultPlan{Faults: []pgmem.Fault{{At: rt0 + j, Kind: pgmem.FailStatement}}})
+				var ferr error
+				desc := fmt.Sprintf("%s ops=%s slot=%d keyper=%d", shape, ops, slot, i)
+				if rep.Guard("panic:trigger", desc, func() { ferr = n.GnosisKeyper.VerifMaybeTriggerDecryption(ctx, slot) }) {
+					return
+				}
+				db.SetFaultPlan(n.Incarnation, nil)
+				if ferr != nil {
+					rep.Obs("slot_attempts_failed_by_an_injected_fault", 1)
+				}
+				n.DrainTriggers()
+				// whatever the interrupted attempt left behind is the state the second attempt finds
+				row, err := gnosisdb.New(n.Pool).GetTxPointer(ctx, cw.CfgIndex)
+				if err != nil {
+					ptrs[i] = refimpl.Pointer{}
+				} else {
+					ptrs[i] = refimpl.Pointer{Exists: true, Value: row.Value, AgeKnown: row.Age.Valid, Age: row.Age.Int64}
+				}
+				var rerr error
+				if rep.Guard("panic:trigger", desc+" (second attempt)", func() { rerr = n.GnosisKeyper.VerifMaybeTriggerDecryption(ctx, slot) }) {
+					return
+				}
+				if trs := n.DrainTriggers(); len(trs) > 0 || rerr != nil {
+					rep.Violationf("second-attempt-of-a-slot", map[string]any{"case": desc, "triggers": len(trs), "error": fmt.Sprint(rerr)}, "the second attempt of slot %d produced %d trigger(s) / error %v", slot, len(trs), rerr)
+					return
+				}
+				rep.Obs("second_attempts_of_a_slot", 1)
+				if !checkPointer(i, "second-attempt-of-a-slot") {
+					return
+				}
+			}
+			lastIDs = [2][][]byte{} // the interrupted slot's request (if any) is not followed up
 		case op < 4: // slot trigger on both keypers
 			slot++
 			viaSlotFlow := slot < 1<<62 && r.Chance(1, 2)
